@@ -28,8 +28,8 @@ ASSUMPTIONS = ["recursion limit / memory are not modelled",
 PARTIAL = ["C09_closure: only the union node is proved (C09_closure_partial: a named branch read back as (name, value) re-selects the same index); "
            "the full statement (in a comment of props/C09.v) is evaluated on every applicable case both on the implementation (corr:closure) "
            "and inside the model (the CL field of run_c09); C09_closure_refuted is a lemma about data OUTSIDE the statement (unnamed branch)",
-           "elab_typed's float side condition floats_ok (range of d2s/z2d outputs, rests on SpecFloat.binary_round) is evaluated "
-           "in-model on every case, not proved"]
+           "the hypotheses of C01_elab_typed on the input (wf_py, pyfloats_ok, wf_schema/wf_env, dflt/env_floats_ok) are evaluated in-model "
+           "on every case; floats_ok of the elaborated value is DERIVED in Rocq (proofs/ElabFloats.v) and still printed as a cross-check"]
 
 ROPT_KEYS = ["return_record_name", "return_record_name_override", "return_named_type", "return_named_type_override"]
 
@@ -119,7 +119,8 @@ def check_case(ctx, c, m, stats):
     if pm["status"] == "ok" and (pm["flags"] != "fok"):
         ctx.violation("side-condition", c.to_json(), impl=None, model=m[:800], signature="C09:side-condition:" + pm["flags"],
                       found_input=False, kind="broken-obligation",
-                      detail="a hypothesis of elab_typed (floats_ok / wf_py / wf_schema) is false in the model on a generated case")
+                      detail="a hypothesis of C01_elab_typed (wf_py / pyfloats_ok / wf_schema / dflt_floats_ok) is false in the model on a generated case, "
+                             "or the derived floats_ok fails (FBAD)")
     model_t = pm["W"] if pm["status"] == "ok" else pm["status"]
     if impl_t != model_t:
         ctx.violation("corr:union-index", c.to_json(), impl=impl_t[:1500], model=(m or "")[:1500], signature="C09:model-differs:union-index",
